@@ -726,7 +726,7 @@ class Renderer:
 
 
 def render_spaced(ast, rng):
-    seps = ['', ' ', '  ', '\t', '\n', ' \n', '\n ', ' \n\t']
+    seps = ['', ' ', '  ', '\t', '\n', ' \n', '\n ', ' \n\t', '\r\n', ' \r\n', '\r']
     r = Renderer(lambda: rng.choice(seps))
     r.seq(ast)
     return r.text()
